@@ -182,6 +182,53 @@ def _extract_impl(src, imp, it, log, where):
     return "\n".join(out)
 
 
+def _instantiate_macro(src, it, log, where):
+    """Rule M1: a function generated by a `macro_rules!` template is obtained by substituting the arguments of the REAL
+    invocation (found by its first argument) for the `$variables` of the REAL template -- both read from the snapshot.
+    Only single-arm templates with `$x:tt`-style parameters are supported; anything else is exit 2."""
+    masked = rsitems.mask(src)
+    m = re.search(r"\bmacro_rules!\s+%s\s*\{" % re.escape(it["macro"]), masked)
+    if not m:
+        raise Unsupported("anchor lost: macro_rules! %s" % it["macro"])
+    open_pos = masked.index("{", m.start())
+    close_pos = rsitems.match_brace(masked, open_pos)
+    body = src[open_pos + 1:close_pos]
+    mb = rsitems.mask(body)
+    # first arm: ( PATTERN ) => { TEMPLATE }
+    p_open = mb.index("(")
+    p_close = rsitems.match_brace(mb, p_open)
+    pattern = body[p_open + 1:p_close]
+    arrow = mb.index("=>", p_close)
+    t_open = mb.index("{", arrow)
+    t_close = rsitems.match_brace(mb, t_open)
+    template = body[t_open + 1:t_close]
+    if "=>" in mb[t_close:] and re.search(r"\(", mb[t_close:]):
+        # further arms exist: only accept if the invocation matches the first arm's arity (checked below)
+        pass
+    params = re.findall(r"\$(\w+)\s*:\s*\w+", pattern)
+    if "$(" in pattern:
+        raise Unsupported("rule M1: macro %s has a repetition in its pattern" % it["macro"])
+    # the real invocation whose first argument is the wanted name
+    inv = None
+    for im in re.finditer(r"\b%s!\s*\(([^;]*?)\)\s*;" % re.escape(it["macro"]), masked):
+        args = [a.strip() for a in src[im.start(1):im.end(1)].split(",")]
+        if args and args[0] == it["name"]:
+            inv = args
+            break
+    if inv is None:
+        raise Unsupported("anchor lost: invocation %s!(%s, ..)" % (it["macro"], it["name"]))
+    if len(inv) != len(params):
+        raise Unsupported("rule M1: %s!(%s) has %d arguments, the template %d parameters" % (it["macro"], it["name"], len(inv), len(params)))
+    text = template
+    for pname, arg in sorted(zip(params, inv), key=lambda z: -len(z[0])):
+        text = re.sub(r"\$%s\b" % re.escape(pname), arg, text)
+    if "$" in rsitems.mask(text):
+        raise Unsupported("rule M1: unsubstituted macro variable in %s!(%s)" % (it["macro"], it["name"]))
+    log.append({"rule": "M1", "site": where, "pattern": "macro_rules! %s" % it["macro"],
+                "replacement": "instantiated with (%s)" % ", ".join(inv), "count": 1})
+    return rsitems.strip_attrs_and_docs(text)
+
+
 def _extract_item(snapshot, it, log):
     path = os.path.join(snapshot, it["file"])
     if not os.path.exists(path):
@@ -189,6 +236,15 @@ def _extract_item(snapshot, it, log):
     src = open(path).read()
     kind = it["kind"]
     where = "%s::%s" % (it["file"], it.get("name"))
+    for req in it.get("require_source", []):
+        # a rewrite that mirrors a macro definition is only faithful while that definition reads as expected
+        if not re.search(req, src, flags=re.S):
+            raise Unsupported("anchor lost: %s no longer contains /%s/ (a rewrite rule of this unit mirrors it)" % (it["file"], req))
+    if kind == "macro_fn":
+        text = _instantiate_macro(src, it, log, where)
+        item = rsitems.find_fn(text, it["name"])
+        line = src.count("\n", 0, src.find("macro_rules! %s" % it["macro"])) + 1
+        return _transform_fn(item, it, log, where), line
     try:
         if kind == "fn":
             item = rsitems.find_fn(src, it["name"], it.get("impl"))
@@ -272,7 +328,7 @@ def build_unit(snapshot, unit):
         text = _widen_visibility(text, log, "%s::%s" % (it["file"], it.get("name") or it.get("impl")))
         label = it.get("label") or ("%s %s" % (it["kind"], it.get("name") or it.get("impl")))
         chunks.append((label, text, "%s:%d" % (it["file"], line)))
-        if it["kind"] == "fn" and not it.get("drop_body"):
+        if it["kind"] in ("fn", "macro_fn") and not it.get("drop_body"):
             fns.append({"fn": it["name"], "file": it["file"], "line": line, "impl": it.get("impl"),
                         "contract": " ".join(it.get("contract", "").split()),
                         "raw_contract": it.get("contract", ""), "props": it.get("props")})
